@@ -569,3 +569,113 @@ Section Phase.
       apply (proj1 (plain_tab_In _) Q3 _ _ Hin).
   Qed.
 End Phase.
+
+(* ---- histories that alternate clean plain phases and lives of mapped traits ---- *)
+Lemma final_state_app : forall pt a b s, final_state pt s (a ++ b) = final_state pt (final_state pt s a) b.
+Proof. intros pt. induction a as [|o r IH]; intros b s; [reflexivity|]. cbn [app final_state]. apply IH. Qed.
+Lemma lfinal_app : forall crule h1 h2 ls, lfinal crule ls (h1 ++ h2) = lfinal crule (lfinal crule ls h1) h2.
+Proof.
+  intros crule. induction h1 as [|[o ob] r IH]; intros h2 ls; [reflexivity|]. cbn [app lfinal]. apply IH.
+Qed.
+
+Section Life.
+  Variable ct0 : ctab.
+  Variable pt : ptab.
+  Notation crule := (model_rule ct0 pt).
+
+  (* the state and the law's bookkeeping at the end of a complete life *)
+  Lemma life_tail_final : forall n m d wd, zassoc d m = Some wd ->
+    forall s0 ls0, Inv ct0 pt s0 ls0 ->
+    forall ops s ls, During n m d s0 s -> Agree s ls -> forallb (pair_op n) ops = true ->
+    Inv ct0 pt (final_state pt s (ops ++ [ORem n])) (lfinal crule ls (run pt s (ops ++ [ORem n]))).
+  Proof.
+    intros n m d wd Hd s0 ls0 HI0. induction ops as [|o r IH]; intros s ls HD HA Hf.
+    - cbn [app run final_state]. pose proof (Inv_after_life ct0 pt n m d s0 ls0 s ls HI0 HD HA) as H.
+      destruct (step pt s (ORem n)) as [s' ob]. exact H.
+    - simpl in Hf. apply andb_true_iff in Hf. destruct Hf as [Ho Hr].
+      pose proof (During_Pair n m d _ _ HD) as HP.
+      destruct (pair_step crule pt n m d wd Hd s ls o HP HA Ho) as (_ & _ & HA').
+      pose proof (During_step pt n m d wd Hd s0 s o HD Ho) as HD'.
+      cbn [app run final_state]. destruct (step pt s o) as [s' ob]. cbn [fst snd lfinal] in *.
+      apply IH; auto.
+  Qed.
+
+  Lemma life_final : forall n m d wd ops s0 ls0, zassoc d m = Some wd -> Inv ct0 pt s0 ls0 ->
+    forallb (pair_op n) ops = true ->
+    Inv ct0 pt (final_state pt s0 (OAdd n (PMap m d) :: ops ++ [ORem n]))
+               (lfinal crule ls0 (run pt s0 (OAdd n (PMap m d) :: ops ++ [ORem n]))).
+  Proof.
+    intros n m d wd ops s0 ls0 Hd HI0 Hf.
+    destruct (pair_add crule pt n m d s0 ls0 (Inv_Agree _ _ _ _ HI0)) as (_ & _ & HA).
+    pose proof (During_add pt n m d s0) as HD.
+    cbn [run final_state]. destruct (step pt s0 (OAdd n (PMap m d))) as [s1 ob]. cbn [fst snd lfinal] in *.
+    eapply life_tail_final; eauto.
+  Qed.
+
+  Inductive seg :=
+  | SPlain (ops : list op)                                          (* operations on plain traits *)
+  | SMap (n : name) (m : list (Z * Z)) (d : Z) (ops : list op).      (* add_trait(n, Map(m, d)); ops on n, n_; remove_trait(n) *)
+  Definition seg_ops (g : seg) : list op :=
+    match g with SPlain ops => ops | SMap n m d ops => OAdd n (PMap m d) :: ops ++ [ORem n] end.
+  Definition seg_ok (s : state) (g : seg) : bool :=
+    match g with
+    | SPlain ops => clean_run pt s ops
+    | SMap n m d ops => (match zassoc d m with Some _ => true | None => false end) && forallb (pair_op n) ops
+    end.
+  Fixpoint segs_ok (s : state) (gs : list seg) : bool :=
+    match gs with
+    | [] => true
+    | g :: r => seg_ok s g && segs_ok (final_state pt s (seg_ops g)) r
+    end.
+
+  Lemma segs_law : forall gs s ls i, Inv ct0 pt s ls -> segs_ok s gs = true ->
+    law_hist crule i ls (run pt s (flat_map seg_ops gs)) = [] /\
+    Inv ct0 pt (final_state pt s (flat_map seg_ops gs)) (lfinal crule ls (run pt s (flat_map seg_ops gs))).
+  Proof.
+    induction gs as [|g r IH]; intros s ls i HI Hok; [split; [reflexivity|exact HI]|].
+    simpl in Hok. apply andb_true_iff in Hok. destruct Hok as [Hg Hr].
+    cbn [flat_map]. rewrite run_app, law_hist_app, final_state_app, lfinal_app.
+    assert (Hseg : law_hist crule i ls (run pt s (seg_ops g)) = [] /\
+                   Inv ct0 pt (final_state pt s (seg_ops g)) (lfinal crule ls (run pt s (seg_ops g)))).
+    { destruct g as [ops|n m d ops]; simpl in Hg.
+      - split; [apply run_law_inv; auto|apply run_Inv_final; auto].
+      - apply andb_true_iff in Hg. destruct Hg as [Hd Hf].
+        destruct (zassoc d m) as [wd|] eqn:Ed; [|discriminate]. split.
+        + apply (mapped_life crule pt n m d wd Ed ops s ls i (Inv_Agree _ _ _ _ HI) Hf).
+        + apply (life_final n m d wd ops s ls Ed HI Hf). }
+    destruct Hseg as [A B]. rewrite A. cbn [app].
+    apply IH; auto.
+  Qed.
+End Life.
+
+Lemma law_alternating_tables : forall ct0 pt gs i,
+  plain_tab ct0 = true -> plain_tab pt = true ->
+  segs_ok pt (init_state ct0) gs = true ->
+  law_hist (model_rule ct0 pt) i l_init (run pt (init_state ct0) (flat_map seg_ops gs)) = [] /\
+  forall n m d wd ops, zassoc d m = Some wd -> forallb (pair_op n) ops = true ->
+    law_hist (model_rule ct0 pt) i l_init
+             (run pt (init_state ct0) (flat_map seg_ops gs ++ OAdd n (PMap m d) :: ops)) = [].
+Proof.
+  intros ct0 pt gs i P1 P2 Hok.
+  destruct (segs_law ct0 pt gs _ _ i (Inv_init _ _ P1 P2) Hok) as [A B]. split; [exact A|].
+  intros n m d wd ops Hd Hf. rewrite run_app, law_hist_app, A. cbn [app].
+  apply (mapped_life _ pt n m d wd Hd ops _ _ _ (Inv_Agree _ _ _ _ B) Hf).
+Qed.
+
+(* third form of the main theorem: any class without Map/List declarations; plain phases and complete
+   lives of mapped instance traits in any number and order, and possibly one more, unfinished life *)
+Lemma law_alternating : forall h c gs i,
+  plain_class h c = true ->
+  let t := class_tables h c in
+  segs_ok (snd t) (init_state (fst t)) gs = true ->
+  law_hist (spec_rule h c) i l_init (run (snd t) (init_state (fst t)) (flat_map seg_ops gs)) = [] /\
+  forall n m d wd ops, zassoc d m = Some wd -> forallb (pair_op n) ops = true ->
+    law_hist (spec_rule h c) i l_init
+             (run (snd t) (init_state (fst t)) (flat_map seg_ops gs ++ OAdd n (PMap m d) :: ops)) = [].
+Proof.
+  intros h c gs i Hp t Hok. apply andb_true_iff in Hp. destruct Hp as [P1 P2].
+  destruct (law_alternating_tables (fst t) (snd t) gs i P1 P2 Hok) as [A B].
+  split.
+  - rewrite <- (law_hist_ext _ _ (class_tables_rule h c)). exact A.
+  - intros n m d wd ops Hd Hf. rewrite <- (law_hist_ext _ _ (class_tables_rule h c)). eapply B; eauto.
+Qed.
